@@ -328,18 +328,25 @@ def analyse(obs: Obs, prog):
         if item_ is None:
             apps = [e_ for e_ in r.env.get("__effects__", []) if is_mcall(e_, "append") and e_[1][1] == lst_ and len(e_[2]) == 1]
             item_ = apps[0][2][0] if len(apps) == 1 else None
-        if is_t(item_, "bin") and item_[1] == "|":
-            A_, B_ = item_[2], item_[3]
+        if item_ is not None:
             derb_ = f"per branch: {show(item_)[:260]}"
-            _mask_call = lambda t: is_t(t, "call") and (is_mcall(t, "mask") or (is_t(t[1], "phi") and all(is_t(x, "attr") and x[2] == "mask" for x in (t[1][2], t[1][3]))))
-            if _mask_call(A_) and is_mcall(B_, "mask") and len(A_[2]) == 1 and len(B_[2]) == 1:
-                fa, fb = A_[2][0], B_[2][0]
-                same_val = lambda t: is_t(t, "cmp") and t[1] == "==" and old_idx in (t[2], t[3]) and any(normalised(x, RAWN) for x in (t[2], t[3]))
-                flag_ok = (is_t(fa, "phi") and keeps_index(fa[1]) and fa[2] == C(True) and same_val(fa[3])) or same_val(fa)
-                neg_ok = is_call(fb, "not_") and fb[2] == (fa,) or fb == ("un", "not", fa) or fb == ("un", "~", fa)
-                own_discard = mentions_any(A_[1], lambda x: is_t(x, "attr") and x[2] == "constraint" and mentions_any(x[1], lambda y: is_t(y, "proj") and y[2] == 3))
-                old_choices = B_[1][1] == choices_of(("elem", tsub))
-                okb_ = bool(flag_ok and neg_ok and own_discard and old_choices)
+            same_val = lambda t: is_t(t, "cmp") and t[1] == "==" and old_idx in (t[2], t[3]) and any(normalised(x, RAWN) for x in (t[2], t[3]))
+            oks_ = []
+            # decided once per outcome of the Python-level tests (the flag is the literal True only where the index certainly kept its value)
+            for asg, _qs, _fs in scen:
+                it_ = _under(item_, asg)
+                ok1 = False
+                if is_t(it_, "bin") and it_[1] == "|" and is_mcall(it_[2], "mask") and is_mcall(it_[3], "mask") and len(it_[2][2]) == 1 and len(it_[3][2]) == 1:
+                    A_, B_ = it_[2], it_[3]
+                    fa, fb = A_[2][0], B_[2][0]
+                    keeps = any(pol_ and keeps_index(c_) for c_, pol_ in asg)
+                    flag_ok = same_val(fa) or (fa == C(True) and keeps) or (is_t(fa, "phi") and keeps_index(fa[1]) and fa[2] == C(True) and same_val(fa[3]))
+                    neg_ok = (is_call(fb, "not_") and fb[2] == (fa,)) or fb == ("un", "not", fa) or fb == ("un", "~", fa) or (fa == C(True) and fb == C(False))
+                    own_discard = mentions_any(A_[1], lambda x: is_t(x, "attr") and x[2] == "constraint" and mentions_any(x[1], lambda y: is_t(y, "proj") and y[2] == 3))
+                    old_choices = B_[1][1] == choices_of(("elem", tsub))
+                    ok1 = bool(flag_ok and neg_ok and own_discard and old_choices)
+                oks_.append(ok1)
+            okb_ = bool(oks_) and all(oks_)
     cs = f"rets[{const_sub[0][2]}][3]" if const_sub and not okb_ else "backward request of Switch.edit"
     obs.add({"C06", "C13"}, "BWD-SELECT", "Switch.edit", okb_, construct=cs, derived=derb_,
             expected="Update(ChoiceMap.switch(trace.get_idx(), [bwd_i.constraint.mask(same) | old_subtrace_i.get_choices().mask(not same)])) with same = (clamp(new idx) == trace.get_idx())", where=w)
